@@ -210,6 +210,56 @@ theorem recvMac_iff (F : Perm) (s s' : Strobe) (h : Mirror s s') (mac : Bytes) :
   simp only
   exact duplex_exchange_zero_iff F _ mac
 
+/-- when the candidate MAC is the right one, `exchange` leaves the state `copy_state` leaves -/
+theorem duplex_exchange_state (F : Perm) (s : Strobe) (mac : Bytes)
+    (h : mac = (duplex F mCopyState s (Bytes.zeros mac.length)).2) :
+    (duplex F mExchange s mac).1 = (duplex F mCopyState s (Bytes.zeros mac.length)).1 := by
+  induction mac generalizing s with
+  | nil => rfl
+  | cons b bs ih =>
+    simp only [duplex, List.length_cons, Bytes.zeros, List.replicate_succ, List.cons.injEq] at h ⊢
+    have hcopy : (stepByte F mCopyState s 0).2 = s.st.getD s.pos 0 := rfl
+    rw [hcopy] at h
+    have hst : (stepByte F mExchange s b).1 = (stepByte F mCopyState s 0).1 := by
+      unfold stepByte mExchange mCopyState
+      simp only
+      rw [h.1, getD_set_self]
+    rw [hst]
+    exact ih _ (by rw [← hst]; rw [hst]; exact h.2)
+
+/-- after a successful `recv_mac` the receiver's state mirrors the sender's state after `send_mac` -/
+theorem recvMac_state (F : Perm) (s s' : Strobe) (h : Mirror s s') (mac : Bytes)
+    (hv : (recvMac F s' mac).2 = true) :
+    (recvMac F s' mac).1 = (sendMac F s mac.length).1.withRecv (some true) := by
+  have hmac := (recvMac_iff F s s' h mac).mp hv
+  have hs : s.isReceiver = none ∨ s.isReceiver = some false := by
+    rcases h with ⟨h, _⟩ | ⟨h, _⟩
+    · exact Or.inl h
+    · exact Or.inr h
+  obtain ⟨h1, h2⟩ := tFlag_mirror s 0x0C hs
+  have hs' : tFlag s' true 0x0C = (s.withRecv (some true), 0x0C) := by
+    rcases h with ⟨hn, rfl⟩ | ⟨hf, rfl⟩
+    · have := h2 none (Or.inl ⟨rfl, hn⟩)
+      rw [← hn] at this
+      simpa using this
+    · exact h2 (some true) (Or.inr rfl)
+  unfold recvMac sendMac operate at hmac ⊢
+  simp only at hmac ⊢
+  rw [h1] at hmac ⊢
+  rw [hs']
+  simp only at hmac ⊢
+  rw [show s.withRecv (some true) = (s.withRecv (some false)).withRecv (some true) from rfl,
+    beginOp_withRecv, duplex_withRecv]
+  simp only
+  rw [duplex_exchange_state F _ mac hmac]
+
+/-- `prf` does not look at the direction flag -/
+theorem prf_withRecv (F : Perm) (s : Strobe) (r) (n : Nat) :
+    prf F (s.withRecv r) n = ((prf F s n).1.withRecv r, (prf F s n).2) := by
+  unfold prf operate
+  simp only
+  rw [beginOp_withRecv, duplex_withRecv]
+
 theorem sendMac_length (F : Perm) (s : Strobe) (n : Nat) : (sendMac F s n).2.length = n := by
   unfold sendMac operate; simp only; rw [duplex_length]; simp [Bytes.zeros]
 
